@@ -30,6 +30,12 @@ Atoms(t) ==
                   B  |-> A1("name", "rx", RxL(<<"t","x","t">>, FALSE, TRUE), ""),
                   Bi |-> A1("name", "notrx", RxL(<<"p">>, TRUE, FALSE), ""),
                   C  |-> A1("is_dir", "istrue", BoolL(TRUE, ""), "") ]
+    \* the same literal text as LIKE pattern and as regular expression within one formula (each keeps its own meaning)
+    [] t = 4 -> [ A  |-> A1("name", "like", TextL(<<"p","%">>), ""),
+                  Ai |-> A1("name", "rx", RxL(<<"p","%">>, FALSE, FALSE), ""),
+                  B  |-> A1("name", "rx", RxL(<<"t">>, FALSE, FALSE), ""),
+                  Bi |-> A1("name", "like", TextL(<<"t">>), ""),
+                  C  |-> A1("size", "gt", IntL(100), "") ]
 Leaves == {"A", "Ai", "B", "Bi", "C"}
 
 Init == tab \in Tables /\ ws \in WorldSel /\ toks = <<>> /\ open = 1 /\ ops = 0
